@@ -21,7 +21,8 @@ SPELL = {
              ("3975i32", 3975, True), ("7usize", 7, True), ("39.75f64", 39.75, False), ("0x1f32", 0x1f32, True),
              ("0xffu8", 255, True), ("003975", 3975, True), ("6e4", 60000.0, False), ("1e-9", 1e-9, False)),
 }
-SPELL["javascript"] = SPELL["typescript"]
+# sloppy-mode JavaScript also has the legacy forms: 0777 is octal (511), 089 is decimal
+SPELL["javascript"] = SPELL["typescript"] + (("0777", 511, True), ("089", 89, True))
 
 # context -> (template lines, exempt-kind)   {t} is the literal text
 CTX = {
